@@ -558,39 +558,43 @@ Section Eval.
     | other => other
     end.
 
-  (* evaluate(expr, output, evaluate_nested=True) *)
+  (* evaluate(expr, output, evaluate_nested=True).  opq = some part evaluated to a Python value outside the modelled
+     fragment (NOT_SET, json.dumps of a container used as key): evaluation goes on (a later part may still raise or be
+     unresolvable) and the result is VOpaque *)
   Fixpoint eval_nested (e : json) : outcome :=
     match e with
     | JStr s => eval_str s
     | JArr l =>
-        (fix go (l : list json) (acc : list json) : outcome :=
+        (fix go (l : list json) (acc : list json) (opq : bool) : outcome :=
            match l with
-           | [] => OVal (VJ (JArr (rev acc)))
+           | [] => if opq then OVal VOpaque else OVal (VJ (JArr (rev acc)))
            | x :: r => match eval_nested x with
-                       | OVal (VJ j) => go r (j :: acc)
+                       | OVal (VJ j) => go r (j :: acc) opq
                        | OVal VUnres => OVal VUnres
-                       | OVal _ => OVal VOpaque
+                       | OVal _ => go r acc true
                        | other => other
                        end
-           end) l []
+           end) l [] false
     | JObj kvs =>
-        (fix go (l : list (str * json)) (acc : list (str * json)) : outcome :=
+        (fix go (l : list (str * json)) (acc : list (str * json)) (opq : bool) : outcome :=
            match l with
-           | [] => OVal (VJ (JObj acc))
+           | [] => if opq then OVal VOpaque else OVal (VJ (JObj acc))
            | (k, x) :: r =>
                match key_of (eval_str k) with
-               | OVal (VJ (JStr k')) =>
+               | OVal VUnres => OVal VUnres
+               | OVal kv =>
                    match eval_nested x with
-                   | OVal (VJ j) => go r (assoc_set k' j acc)
+                   | OVal (VJ j) => match kv with
+                                    | VJ (JStr k') => go r (assoc_set k' j acc) opq
+                                    | _ => go r acc true
+                                    end
                    | OVal VUnres => OVal VUnres
-                   | OVal _ => OVal VOpaque
+                   | OVal _ => go r acc true
                    | other => other
                    end
-               | OVal VUnres => OVal VUnres
-               | OVal _ => OVal VOpaque
                | other => other
                end
-           end) kvs []
+           end) kvs [] false
     | other => OVal (VJ other)
     end.
 
